@@ -34,8 +34,12 @@ divides by zero while `ℝ` totalises `x / 0 = 0`, so nothing is claimed there).
   (over the reals the clamp is a no-op and the old code computed the same number), `heat_triangle`, and the
   stability theorem `w1_stability_bound` / `w1_stability`: `heat ≤ W1 / (4 σ √π)`.
 
+* `old_heat_counterexample`: the model of the old code evaluated at IEEE double (`decide +kernel`) has a
+  negative radicand for a reordered two-point diagram.
+
 Nothing is left unproved for the exact-arithmetic model; floating-point rounding (what produced the
-pre-fix NaN) is outside every theorem and is covered by the tests of `harness/props/c14.py`.
+pre-fix NaN) is outside every universally quantified theorem and is covered by the tests of
+`harness/props/c14.py`.
 -/
 namespace PersimVerif.C14
 open PersimVerif.Heat PersimVerif.Lemmas
@@ -398,5 +402,27 @@ example : ∀ x : ℝ, 0 ≤ x → 0 ≤ Real.sqrt x ∧ Real.sqrt x * Real.sqrt
   fun x hx => ⟨Real.sqrt_nonneg x, Real.mul_self_sqrt hx⟩
 
 end
+
+/-! ### the old code (before commit 2acc822): a regression witness at IEEE double
+
+Over the reals the old code is equal to the new one (`heat_eq_sqrt_d2`): its failure was a rounding effect.
+The witness below is therefore about the *same model* instantiated at `Float`, whose `+ − × ÷` the Lean
+kernel evaluates bit-exactly.  `Float.exp` is opaque to the kernel, so `exp` is replaced by its Taylor
+polynomial of degree 8 in Horner form (within 2e-5 of `exp` on the arguments that occur) — the effect
+does not depend on how `exp` is computed: the three kernel values of a diagram and a reordering of itself
+are the same sum in three different orders, and `k(F,F) + k(F',F') − 2 k(F,F')` comes out at `−5.6e-17`,
+on which `sqrt` is NaN.  -/
+
+/-- Taylor polynomial of `exp` of degree 8, Horner form, in IEEE double arithmetic -/
+def expT (x : Float) : Float :=
+  [8, 7, 6, 5, 4, 3, 2, 1].foldl (fun acc (n : Float) => 1 + x / n * acc) 1
+
+/-- **the old radicand is negative in IEEE double arithmetic** for the two-point diagram
+    `[(0.1,1.8),(0.1,1.5)]` and its reordering, `σ = 0.5` (so `heatOld` takes the square root of a negative
+    number); with the clamp of the fix the radicand is not negative -/
+theorem old_heat_counterexample :
+    dist2 expT 3.141592653589793 [(0.1, 1.8), (0.1, 1.5)] [(0.1, 1.5), (0.1, 1.8)] (0.5 : Float) < 0 ∧
+    ¬ (max (dist2 expT 3.141592653589793 [(0.1, 1.8), (0.1, 1.5)] [(0.1, 1.5), (0.1, 1.8)] (0.5 : Float)) 0 < 0) := by
+  decide +kernel
 
 end PersimVerif.C14
